@@ -130,6 +130,8 @@ type VC struct {
 	specRecv  Val
 	specArgs  []Val
 	panicPosts bool
+	unw        *unwindCtx // non-nil while deferred calls run during an abrupt exit
+	goexitTerm string     // value of goexited() while always_* clauses are checked on an unwinding exit
 	tsubst    []map[*types.TypeParam]types.Type
 	oracle    *pathOracle
 	posCount  map[string]int
@@ -154,6 +156,20 @@ type frame struct {
 	results []*types.Var // result variables (named or synthesized)
 	fn      *FuncInfo
 	lit     *ast.FuncLit
+	unwinds []unwound // abrupt exits (panic / runtime.Goexit) of function-value calls made in this frame
+}
+
+// unwound: the state at a call through a function value whose contract says may_unwind, taken as the state in
+// which that call does not return: the callee panicked (isPanic) or called runtime.Goexit (!isPanic)
+type unwound struct {
+	st      *State
+	isPanic string
+}
+
+// unwindCtx: set while the deferred calls of a frame run because of an abrupt exit
+type unwindCtx struct {
+	isPanic   string
+	recovered string // the panic has been stopped by a recover() call (absolute condition)
 }
 
 func newVC(p *Program, fn *FuncInfo) *VC {
